@@ -313,15 +313,19 @@ def gen_doc(rnd, depth=0):
 
 def _vjob(job):
     tid, name, text, cm, front = job
-    cfg = {"commonmark_only": True} if cm else {"enable_extensions": EXT + (["attrs_block", "attrs_inline", "colon_fence", "html_admonition", "html_image"] if front == "c03" else [])}
+    cfg = {"commonmark_only": True} if cm else {"enable_extensions": EXT + (["attrs_block", "attrs_inline", "colon_fence", "html_admonition", "html_image"] if front in ("c03", "c03raw") else [])}
     try:
         ev, why = R.events_of(text, cfg)
     except Exception as e:  # noqa: BLE001
         return {"id": tid, "skip": f"markdown-it raised {type(e).__name__}"}
     c03only = ev is None
-    if c03only and front != "c03":
+    if c03only and front not in ("c03", "c03raw"):
         return {"id": tid, "skip": why}
-    ov = {"myst_commonmark_only": True} if cm else {"myst_enable_extensions": cfg["enable_extensions"], "myst_heading_anchors": 3 if front == "c03" else 0}
+    ov = {"myst_commonmark_only": True} if cm else {"myst_enable_extensions": cfg["enable_extensions"], "myst_heading_anchors": 3 if front in ("c03", "c03raw") else 0}
+    if front == "c03raw":
+        # docutils' raw_enabled=False: every raw node is replaced by a warning node after the parse
+        ov["raw_enabled"] = False
+        ev, c03only = None, True
     ov["myst_highlight_code_blocks"] = False
     try:
         doc, _ = R.parse_docutils(text, ov, transforms=False)
@@ -456,8 +460,10 @@ def trace_leg(ctx, focus, extra_docs=()):
     jobs = []
     kind = "c03" if focus == "C03" else "docutils"
     for n, (name, text) in enumerate(docs):
-        jobs.append((2 * n, name, text, True, kind))
-        jobs.append((2 * n + 1, name, text, False, kind))
+        jobs.append((3 * n, name, text, True, kind))
+        jobs.append((3 * n + 1, name, text, False, kind))
+        if focus == "C03" and name.startswith(("stress", "gen")) and n % 2 == 0:
+            jobs.append((3 * n + 2, name + "/raw_enabled=False", text, False, "c03raw"))
     outs = pmap(_vjob, jobs, chunksize=32)
     traces, keep, skipped = [], {}, {}
     for j, o in zip(jobs, outs):
